@@ -44,7 +44,7 @@ def put(cfg, pos, val):
         cfg["decorators"][0]["arguments"].append(val)
     elif pos == "warg":      # argument of a wither call (third element true)
         cfg["services"]["tgt"].setdefault("calls", []).append(["WithX", [val], True])
-    elif pos == "stararg":   # decorator on every service
+    elif pos == "stararg":   # decorator on the tag "*" (which no service can carry)
         cfg["decorators"].append({"tag": "*", "decorator": "Wrap", "arguments": [val]})
     elif pos == "deadarg":   # decorator on a tag nobody carries: its references are checked all the same
         cfg["decorators"].append({"tag": "nobody", "decorator": "Wrap", "arguments": [1, val]})
